@@ -37,10 +37,30 @@ type nodeInit struct {
 }
 
 type op struct {
-	Op string `json:"op"`
-	I  uint32 `json:"i"`
-	J  uint32 `json:"j"`
-	S  uint32 `json:"s"`
+	Op    string      `json:"op"`
+	I     uint32      `json:"i"`
+	J     uint32      `json:"j"`
+	S     uint32      `json:"s"`
+	Inner [][2]uint32 `json:"inner"` // exchange_n: operations that complete while j serves i's sync
+}
+
+// hookServer lets the harness run other operations at the moment a node has answered a sync
+// (its ack is computed) and before the initiator receives that answer.
+type hookServer struct {
+	gossip.TransportServer
+	hook *func()
+}
+
+func (h hookServer) BindHandler(handle func(ctx context.Context, m gossip.Message) (gossip.Message, error)) {
+	h.TransportServer.BindHandler(func(ctx context.Context, m gossip.Message) (gossip.Message, error) {
+		res, err := handle(ctx, m)
+		if len(m.Digests) > 0 && len(m.Nodes) == 0 && *h.hook != nil {
+			f := *h.hook
+			*h.hook = nil
+			f()
+		}
+		return res, err
+	})
 }
 
 type tcase struct {
@@ -54,6 +74,7 @@ type result struct {
 	ID    int                   `json:"id"`
 	Init  []map[string]any      `json:"init,omitempty"`
 	Outs  [][]map[string]any    `json:"outs"`
+	Mids  [][]map[string]any    `json:"mids"` // one per exchange_n: the cluster after the inner operations
 	Errs  []string              `json:"errs"`
 	Panic *string               `json:"panic"`
 }
@@ -174,11 +195,13 @@ func runCase(c tcase) (res result) {
 	stores := map[uint32]store.Store{}
 	gossips := map[uint32]*gossip.Gossip{}
 	srvAddr := map[uint32]address.Address{}
+	hooks := map[uint32]*func(){}
 	var keys []uint32
 	for _, n := range c.Nodes {
 		keys = append(keys, n.Key)
 		server := net.UnaryServer(address.Address("srv" + strconv.Itoa(int(n.Key))))
 		srvAddr[n.Key] = server.Address
+		hooks[n.Key] = new(func())
 		s := store.New(ctx)
 		g := node.Group{}
 		for _, r := range n.View {
@@ -190,7 +213,7 @@ func runCase(c tcase) (res result) {
 			}
 		}
 		s.SetState(ctx, store.State{Nodes: g, HostKey: node.Key(n.Key)})
-		gs, err := gossip.New(gossip.Config{TransportServer: server, TransportClient: net.UnaryClient(), Store: s})
+		gs, err := gossip.New(gossip.Config{TransportServer: hookServer{TransportServer: server, hook: hooks[n.Key]}, TransportClient: net.UnaryClient(), Store: s})
 		if err != nil {
 			panic(err)
 		}
@@ -208,6 +231,44 @@ func runCase(c tcase) (res result) {
 				if err := gi.GossipOnceWith(ctx, aj); err != nil {
 					errS = err.Error()
 				}
+			}
+		case "exchange_n":
+			gi, ok1 := gossips[o.I]
+			aj, ok2 := srvAddr[o.J]
+			if ok1 && ok2 && o.I != o.J {
+				inner := o.Inner
+				hookRan := false
+				*hooks[o.J] = func() {
+					hookRan = true
+					defer func() { res.Mids = append(res.Mids, dump(keys, stores)) }()
+					for _, kl := range inner {
+						k, l := kl[0], kl[1]
+						if k == l {
+							if g, ok := gossips[k]; ok {
+								if _, has := stores[k].GetNode(node.Key(k)); has {
+									g.VerifTick(ctx)
+								}
+							}
+							continue
+						}
+						gk, okk := gossips[k]
+						al, okl := srvAddr[l]
+						if okk && okl {
+							if err := gk.GossipOnceWith(ctx, al); err != nil && errS == "" {
+								errS = err.Error()
+							}
+						}
+					}
+				}
+				if err := gi.GossipOnceWith(ctx, aj); err != nil {
+					errS = err.Error()
+				}
+				*hooks[o.J] = nil
+				if !hookRan {
+					res.Mids = append(res.Mids, dump(keys, stores))
+				}
+			} else {
+				res.Mids = append(res.Mids, dump(keys, stores))
 			}
 		case "tick":
 			if g, ok := gossips[o.I]; ok {
